@@ -349,8 +349,11 @@ func genM1(r *rand.Rand, p Profile, id string) Case {
 			switch r.Intn(6) {
 			case 0:
 				n = t.latest() // must be rejected
-			case 1:
+			case 1: // a redundant deletion at or below what is already gone
 				n = t.first() - 1
+				if n > 0 && r.Intn(2) == 0 {
+					n = r.Int63n(n + 1)
+				}
 			default:
 				n = t.first() + int64(r.Intn(int(t.latest()-t.first())))
 			}
@@ -583,6 +586,41 @@ func genM1(r *rand.Rand, p Profile, id string) Case {
 			continue
 		case "replaycs":
 			ops = append(ops, []string{"replaycs"})
+			continue
+		case "rekeychain":
+			// commit, commit without writes, delete the first of the two (its root is re-keyed),
+			// write, commit, delete the next one: one deletion per call
+			if t.cur != t.latest() || t.dirty {
+				continue
+			}
+			if r.Intn(2) == 0 {
+				ops = append(ops, []string{"set", hx(g.key()), hx(g.value())})
+			}
+			ops = append(ops, []string{"save"}, []string{"save"})
+			a := t.latest() + 1
+			if t.latest() == 0 && iv > 0 {
+				a = iv
+			}
+			t.versions = append(t.versions, a, a+1)
+			ops = append(ops, []string{"prune", i64(a)})
+			ops = append(ops, []string{"set", hx(g.key()), hx(g.value())}, []string{"save"})
+			t.versions = append(t.versions, a+2)
+			if r.Intn(2) == 0 {
+				ops = append(ops, []string{"rm", hx(g.key())}, []string{"set", hx(g.key()), hx(g.value())}, []string{"save"})
+				t.versions = append(t.versions, a+3)
+			}
+			ops = append(ops, []string{"prune", i64(a + 1)})
+			var keep []int64
+			for _, v := range t.versions {
+				if v > a+1 {
+					keep = append(keep, v)
+				}
+			}
+			t.versions = keep
+			t.cur = t.latest()
+			t.dirty = false
+			muts++
+			obs(r, g, t, false, &ops)
 			continue
 		case "proofs":
 			tg := "w"
